@@ -124,6 +124,8 @@ def run(ck):
     # an edit can turn a small range into one of 10^5 code points ([a-\x1F600]); such a range is expanded code point by code
     # point (C14, HUGE-RANGE) and sixteen of them in parallel exhaust the memory: ranges ending beyond U+1000 are left out
     edits = set(e for e in edits if not any(int(h, 16) > 0x1000 for h in re.findall(r"-\\x([0-9A-Fa-f]{4,8})", e)))
+    # ... and an 8-digit LOWER bound from 80000000 on is a negative code point: the range then spans 2^31 code points
+    edits = set(e for e in edits if not any(int(h, 16) > 0x1000 for h in re.findall(r"\\x([0-9A-Fa-f]{5,8})", e)))
     # the same for a repetition of a class of 10^5 code points: followpos of \p{Han}* is quadratic in the class (65 GB)
     edits = set(e for e in edits if not (("Han" in e or "\\P{" in e) and re.search(r"[*+{]", re.sub(r"\\[pP]\{[^}]*\}?", "", e))))
     # names that are NOT documented categories: every key of the implementation's own rune-class table and a list of plausible
